@@ -248,7 +248,7 @@ def main(prop='C11'):
     items = family(t, sd)
     t0 = time.time()
     parts = parallel(work, items, chunk=40)
-    stats = {'queries': 0, 'unsat': 0, 'sat': 0, 'unknown': 0, 'solver_s': 0.0}
+    stats = dict.fromkeys(zq.STATS, 0)
     results = []
     for p in parts:
         results += p['results']
